@@ -2,6 +2,7 @@ import OdlModel.Common
 import OdlModel.Model.ResizeBase
 import OdlModel.Gen.PadSlices
 import OdlModel.Model.Resize
+import OdlModel.Model.ResizeRef
 open OdlModel OdlModel.Resize
 
 def parseMode : String → Option Mode
@@ -93,6 +94,22 @@ def doResizeDirect (l : Line) : Option String := do
   | .error e => some (showErr e)
   | .ok R => some s!"ok r={showRatList ((allIdx sOut).map R)}"
 
+/-- `refnd mode=… shape=… newshape=… off=… c=R data=…`: the n-d reference `refAxes`
+(NumPy-style padding / cropping applied axis by axis) of `C16.forward_nd_eq_reference`. -/
+def doRefND (l : Line) : Option String := do
+  let mode ← l.get? "mode" >>= parseMode
+  let sIn ← l.nats? "shape"
+  let sOut ← l.nats? "newshape"
+  let offs ← l.nats? "off"
+  let c ← l.rat? "c"
+  let data ← l.rats? "data"
+  if sIn.length ≠ sOut.length || sIn.length ≠ offs.length then none
+  if data.length ≠ sIn.foldl (· * ·) 1 then none
+  let arr := data.toArray
+  let A : List Nat → Rat := fun idx => arr.getD (flatIdx sIn idx) 0
+  let R := refAxes mode c 0 sIn sOut offs A
+  some s!"ok r={showRatList ((allIdx sOut).map R)}"
+
 /-- `nppad mode=M n=N nout=M off=O c=R data=…`: the reference index formulas
 (`npConstant/npWrap/npReflect/npEdge`, `linExtrap` for order1) on `[0, nout)`. -/
 def doNpPad (l : Line) : Option String := do
@@ -105,12 +122,7 @@ def doNpPad (l : Line) : Option String := do
   if data.length ≠ n then none
   let arr := data.toArray
   let x : Nat → Rat := fun i => arr.getD i 0
-  let r : Nat → Rat := match mode with
-    | .constant => npConstant n off c x
-    | .periodic => npWrap n off x
-    | .symmetric => npReflect n off x
-    | .order0 => npEdge n off x
-    | .order1 => linExtrap n off x
+  let r : Nat → Rat := npPad mode n off c x
   some s!"ok r={showRatList ((List.range nOut).map r)}"
 
 def showOptInt : Option Int → String
@@ -220,6 +232,7 @@ def handle (l : Line) : Option String :=
   | "resize" => doResize l
   | "resize-direct" => doResizeDirect l
   | "nppad" => doNpPad l
+  | "refnd" => doRefND l
   | "discr" => doDiscr l
   | "opadj" => doOpAdj l
   | "opadjnd" => doOpAdjND l
